@@ -247,16 +247,6 @@ class Ref:
         self.rows = [[S(k).lower(), S(k), v] for k, v in items]
 
 
-def f3_pattern(init):
-    """constructor pairs k ... k' ... k with k' != k a case variant of k (dict() de-duplicates k first)"""
-    keys = [S(k) for k, _ in init]
-    for i, k in enumerate(keys):
-        for j in range(i + 1, len(keys)):
-            if keys[j] == k and any(x != k and x.lower() == k.lower() for x in keys[i + 1:j]):
-                return True
-    return False
-
-
 def check_obs_dict(ref, cls, dflt, probes, o, factory_ok=True):
     """the observation after a step against the reference state; returns a message or None"""
     it, items, ln, rp, cont, look, extra = o
@@ -300,18 +290,9 @@ def oracle_dict(arg, out):
     if cls != DEFAULT:
         for k, v in init:
             ref.set(S(k), v)
-        if f3_pattern(init):
-            # the constructor's result on such lists is finding C13-F3; it needs the observation
-            if not out[0][1]:
-                return None
     m = check_obs_dict(ref, cls, dflt, probes, out[0][1]) if out[0][1] else None
     if m:
-        if cls != DEFAULT and f3_pattern(init) and out[0][1][1][0] == 0:
-            known.append('[C13-F3] after the constructor: ' + m)
-            ref.resync(out[0][1][1][1])
-            m = check_obs_dict(ref, cls, dflt, probes, out[0][1])
-        if m:
-            return 'after the constructor: ' + m
+        return 'after the constructor: ' + m
     for i, op in enumerate(ops):
         r, o = out[i + 1]
         t = op[0]
@@ -343,9 +324,6 @@ def oracle_dict(arg, out):
                 exp = [0, [1, row[2]]]; ref.delete(k)
             elif op[2]:
                 exp = [0, [1, op[2][0]]]
-                if cls == DEFAULT and r == [2]:
-                    known.append('[C13-F2] %s: raised although a default was given' % name)
-                    exp = r
             else:
                 exp = [2]
         elif t == O_POPITEM:
@@ -359,10 +337,6 @@ def oracle_dict(arg, out):
         elif t == O_SETDEFAULT:
             if row:
                 exp = [0, [1, row[2]]]
-            elif cls == DEFAULT and not o and op[2] == dflt:
-                break       # unobserved step on which the two accepted readings cannot be told apart
-            elif cls == DEFAULT and r == [0, [1, dflt]] and (not o or o[1] == [0, ref.items()]):
-                exp = r     # the defaulting variant yields its default without inserting (accepted reading)
             else:
                 ref.set(k, op[2]); exp = [0, [1, op[2]]]
         elif t == O_UPDATE:
@@ -375,13 +349,8 @@ def oracle_dict(arg, out):
             ref.lower(); exp = [0, [0]]
         if r != exp:
             return '%s: result %r, expected %r' % (name, r, exp)
-        if t == O_LOWER and cls == DEFAULT and not o:
-            break           # finding C13-F1 territory, not observed in this case
         m = check_obs_dict(ref, cls, dflt, probes, o) if o else None
         if m:
-            if t == O_LOWER and cls == DEFAULT:
-                known.append('[C13-F1] %s: %s' % (name, m))
-                break       # the lowered copy is empty and its default factory unusable: nothing more to compare
             return '%s: %s' % (name, m)
     return known[0] if known else None
 
@@ -582,9 +551,6 @@ def random_dict_history(rng, maxlen):
             ops.append([t])
         else:
             ops.append([t, k])
-    # the known findings of the defaulting variant end / distort a history: keep most random histories clear of them
-    if cls == DEFAULT and rng.random() < 0.8:
-        ops = [o for o in ops if o[0] != O_LOWER]
     probes = [rich_key(rng, pool) for _ in range(4)] + ['zz']
     return [cls, rng.choice([0, 0, 5]), init, ops, probes, 0]
 
@@ -604,7 +570,9 @@ def random_set_history(rng, maxlen):
 
 
 PINNED = [
-    # the three findings
+    # the inputs of the repaired findings C13-F1 .. C13-F4 (regression)
+    ('pinned', 1, [DEFAULT, 0, [], [[O_SETDEFAULT, 'k', 5]], ['k'], 0]),
+    ('pinned', 1, [DEFAULT, 0, [], [[O_SET, 'A', 1], [O_LOWER], [O_GET, 'zz'], [O_SET, 'B', 2], [O_POP, 'x', [9]], [O_POP, 'a', [9]]], ['a', 'b', 'zz'], 0]),
     ('pinned', 1, [DEFAULT, 0, [], [[O_SET, 'A', 1], [O_LOWER]], ['a', 'b'], 0]),
     ('pinned', 1, [DEFAULT, 0, [], [[O_POP, 'x', [9]]], ['x'], 0]),
     ('pinned', 1, [PLAIN, 0, [['a', 1], ['A', 2], ['a', 3]], [], ['a'], 0]),
@@ -706,16 +674,7 @@ def gen(tier, rng):
 
 # ---------------------------------------------------------------------------------------------
 # known findings (known_findings.d/C13.json)
-def _sig(tag):
-    return lambda kind, fn, arg, detail: kind == 'oracle' and fn == 1 and isinstance(detail, str) and detail.startswith(tag)
-
-def _f1(kind, fn, arg, detail):   # CaseInsensitiveDefaultDict.lower()
-    return _sig('[C13-F1]')(kind, fn, arg, detail) and arg[0] == DEFAULT and any(o[0] == O_LOWER for o in arg[3])
-def _f2(kind, fn, arg, detail):   # CaseInsensitiveDefaultDict.pop(absent, default)
-    return _sig('[C13-F2]')(kind, fn, arg, detail) and arg[0] == DEFAULT and any(o[0] == O_POP and o[2] for o in arg[3])
-def _f3(kind, fn, arg, detail):   # constructor k, k', k
-    return _sig('[C13-F3]')(kind, fn, arg, detail) and arg[0] != DEFAULT and f3_pattern(arg[2])
-KNOWN_SIGNATURES = {'C13-F1': _f1, 'C13-F2': _f2, 'C13-F3': _f3}
+KNOWN_SIGNATURES = {}
 
 def replay_known(finding):
     p = finding.get('pinned')
@@ -780,7 +739,6 @@ ASSUMPTIONS = ['lower is idempotent: lower (lower k) = lower k (hypothesis of th
                'boolean key equality decides equality (proved for the extracted instance str_eqb)',
                'correspondence domain: keys are ASCII strings plus caseless non-ASCII symbols; non-ASCII letters are outside the compared domain (the theorems are about an abstract key type and do not depend on it)',
                'set iteration order (hash order) is unobservable: iterations of the set are compared sorted, and MutableSet.pop is modelled as "removes some element" (the element the implementation popped is passed to the model, which checks it is a member)']
-PARTIAL = ['default_run_refines_partial: the defaulting variant is proved to refine the reference map only on histories without lower() and without get-with-default / setdefault / pop-with-default of a then-absent key; the full statement is refuted (default_lower_refuted, default_pop_default_refuted = known findings C13-F1, C13-F2); what the class does there is stated exactly by default_run_refines_quirks (every history without lower()) and default_get_setdefault_no_insert',
-           'init_refines_partial: the constructor is proved to be the sequence of insertions only for argument lists without an exactly repeated key (run_refines itself starts from the dict-de-duplicated list and is unconditional); refuted in general by init_refuted = known finding C13-F3',
+PARTIAL = ['no theorem is partial.  The reference map of the defaulting variant answers get(k, d) of an absent key with the factory default ("yields its default for absent keys"), as the code does (default_get_no_insert); the oracle accepts d as well',
            'repr is modelled, proved and compared as the data it prints, not as text; set iteration order, the element returned by set.pop() and the item returned by popitem() are not fixed by the oracle',
            'not modelled: __eq__, update(**kwargs), &=, ^= and the binary set operators (outside the operation list of the property)']
